@@ -187,6 +187,10 @@ func lemmaOriginRoundTrip(p []byte) ([]byte, int) {
 //@ func slowGenBankOriginParser$1(state *pars.State, result *pars.Result) (err error)
 //@   prop C07 C16 C01
 //@   requires !isnil(state) && !isnil(result) && 0 <= length && length < 999999940
+// the buffer it allocates is as large as the block the LOCUS line declares: the caller must
+// have established (State.Request succeeded) that the input holds that many bytes, otherwise
+// a few bytes of input could claim an allocation of any size
+//@   requires ghostint("reqok") == 1 && ghostint("req") >= olen(length)
 //@   use olenZero(0)
 //@   use olenBound(length)
 //@   ensures accepted: isnil(err) ==> len(result.Token) == olen(length) && (forall b in 0..olen(length): olayOK(result.Token, length, b))
